@@ -22,40 +22,64 @@ from fractions import Fraction
 from .. import core, build_repo
 
 ID = "C30"
-LEVEL = "proof"
+LEVEL = "other"     # proof for the integer <valid> clause; the other clauses of the property are partial, see CLAUSE_LEVELS
+CLAUSE_LEVELS = {
+    "<valid> with integer bounds in int64 (any list, any 64-bit constant): loader accepts, verdict = union of intervals, no throw":
+        "proof (Lean, all expressions/values) + in-process and CLI correspondence",
+    "<valid> bounds outside int64": "exact behaviour proved (intValid_exact_wrap); deviates from the property: known finding bound-outside-int64",
+    "invalidFunctionArg id for boolean-expression arguments": "exact rule proved (invalidArg_id_exact_partial); deviates from the property text for "
+        "constants inside the range (counterexample theorem, known finding bool-arg-range-message-constant-inside)",
+    "<valid> with integer bounds < 2^53, float arguments": "proof (floatValid_intBounds_partial)",
+    "<valid> with fractional / exponent bounds, float single values, '!x'": "other: modelled exactly (correct rounding, %.12g), no theorem; correspondence + python reference only",
+    "non-canonical bound texts the loader accepts (+5, 010, 1e3, -0, 1+2)": "other: executed by model and code (correspondence int:alpha), no theorem",
+    "not-bool": "proof of the decision (argDecision_notBool*, isboolargbad_loadArgs_iff) given astIsBool; astIsBool itself and the report are tied by CLI only",
+    "not-null": "other: isnullargbad decision proved (isnullargbad_loadArgs_iff); 'Known value 0 => nullPointer' is CheckNullPointer + value flow, CLI-sampled only",
+    "not-uninit": "other: isuninitargbad decision modelled and tied in-process; the uninitvar report is CLI-sampled only",
+    "loading arbitrary / mutated XML never crashes": "other: no model; mutated-XML stream on the real loader only (found and fixed 3 crash classes)",
+}
 RULE = ("cases = (valid text, constant) pairs: grammar-generated range lists (1-4 ranges; bounds small, negative, at the int64 "
         "limits, random 64 bit; swapped and over-wide bounds included) probed at every bound-1, bound, bound+1 plus random values; "
         "float bounds (d.d, exponents, shipped cfg texts) probed at the rounded bound and both neighbouring doubles; strings over "
         "the loader's alphabet outside the grammar; malformed texts (foreign characters, whitespace, '::', '1-2', empty); "
+        "CLI: one <arg> combining valid x not-bool x not-null x not-uninit, called with boolean constants / comparisons / ints / buffers; "
         "non-trivial = the loader accepts the text and it has a ':' or ',' (int/float), or the text is non-empty and rejected (malformed)")
-EXPLANATION = ("Lean theorems (all lengths, all integers x): render(v) is accepted by the load-time check, tokenises to the expected "
-               "tokens, parses back to v, and the copied isIntArgValid algorithm accepts x iff x is in the union of the intervals "
-               "whenever all bounds fit int64 (intValid_iff_partial; swapped bounds = empty range included); for |bound| < 2^64 the exact "
-               "behaviour is membership after reducing the bounds modulo 2^64 (intValid_exact_wrap), which refutes the statement for "
-               "arbitrary bounds (counterexample theorem, replayed on the real code on every run = known finding F-C30-b). Float path: "
-               "proved for integer bounds < 2^53 and all finite doubles; fractional bounds / single float values / '!' are modelled "
-               "exactly (correct rounding, %.12g) and validated by correspondence and a python reference only. The value flow that produces "
-               "the Known constant, and Library::load beyond <arg> children, are outside the model (CLI tie / mutated-XML stream only).")
+EXPLANATION = ("LEVEL other = proof for the integer <valid> clause, partial for the rest. PROVED in Lean (all lengths, all integers x): render(v) "
+               "is accepted by the load-time check, tokenises to the expected tokens, parses back to v, and the copied isIntArgValid accepts x iff "
+               "x is in the union of the intervals whenever all bounds fit int64 (intValid_iff_partial; swapped bounds = empty range included); for "
+               "|bound| < 2^64 the exact behaviour is membership after reducing the bounds modulo 2^64 (refutes the statement for arbitrary bounds: "
+               "counterexample theorem = known finding F-C30-b). Checker decision (argDecision): value message <=> Known value outside; "
+               "invalidFunctionArgBool <=> boolean expression and not-bool, independent of <valid>; the id invalidFunctionArg is also produced by "
+               "the boolean block (exact rule invalidArg_id_exact_partial), so 'id <=> constant outside' holds only for non-boolean arguments "
+               "(invalidArg_id_iff_partial) and is refuted for f(1==1) with 1:5 (invalidArg_id_counterexample_bool = known finding F-C30-g). "
+               "Float path proved for integer bounds < 2^53 and all finite doubles. PARTIAL (no theorem, validated by correspondence / python "
+               "reference / CLI only): fractional and exponent float bounds, float single values, '!x'; non-canonical bound texts (+5, 010=8, 1e3); "
+               "not-null and not-uninit reports (only the isnullargbad/isuninitargbad decisions are modelled); value flow producing the Known "
+               "constant and astIsBool; Library::load beyond <arg> children (mutated-XML robustness stream only, no model).")
 THEOREMS = [
     "Cppcheck.LibValid.render_compliant",
     "Cppcheck.LibValid.load_rejects_foreign",
+    "Cppcheck.LibValid.load_rejects_empty",
     "Cppcheck.LibValid.tokenize_render",
     "Cppcheck.LibValid.render_parse",
     "Cppcheck.LibValid.intValid_exact_wrap",
     "Cppcheck.LibValid.intValid_exact",
     "Cppcheck.LibValid.intValid_iff_partial",
     "Cppcheck.LibValid.intValid_eq_partial",
-    "Cppcheck.LibValid.loadAndCheck_render",
-    "Cppcheck.LibValid.invalidArg_reported_iff",
+    "Cppcheck.LibValid.loadAndCheck_render_partial",
+    "Cppcheck.LibValid.invalidValueMsg_reported_iff_partial",
     "Cppcheck.LibValid.argDecision_notBool",
     "Cppcheck.LibValid.argDecision_notBool_independent",
     "Cppcheck.LibValid.argDecision_invalidValue",
     "Cppcheck.LibValid.argDecision_invalidValue_independent",
-    "Cppcheck.LibValid.argDecision_render",
+    "Cppcheck.LibValid.argDecision_render_partial",
+    "Cppcheck.LibValid.argDecision_boolRange_partial",
+    "Cppcheck.LibValid.invalidArg_id_exact_partial",
+    "Cppcheck.LibValid.invalidArg_id_iff_partial",
+    "Cppcheck.LibValid.invalidArg_id_counterexample_bool",
     "Cppcheck.LibValid.intValid_iff_counterexample_wide",
     "Cppcheck.LibValid.old_single_value_clause_counterexample",
-    "Cppcheck.LibValid.intValid_of_parse",
-    "Cppcheck.LibValid.floatValid_intBounds",
+    "Cppcheck.LibValid.intValid_of_parse_partial",
+    "Cppcheck.LibValid.floatValid_intBounds_partial",
     "Cppcheck.LibValid.getarg_eq",
     "Cppcheck.LibValid.isboolargbad_iff",
     "Cppcheck.LibValid.isnullargbad_iff",
@@ -63,6 +87,8 @@ THEOREMS = [
     "Cppcheck.LibValid.loadArgs_notbool",
     "Cppcheck.LibValid.loadArgs_notnull",
     "Cppcheck.LibValid.loadArgs_has",
+    "Cppcheck.LibValid.isboolargbad_loadArgs_iff",
+    "Cppcheck.LibValid.isnullargbad_loadArgs_iff",
 ]
 MODULES = ["Cppcheck.Props.C30"]
 
@@ -597,7 +623,28 @@ def run(ctx, res):
     exe = ctx.harness("c30")
 
     # ---- corpus first -------------------------------------------------------------------------------------------
+    res.extra["clause_levels"] = CLAUSE_LEVELS
+    res.assumptions += [
+        "value flow gives the argument expression exactly its Known constant (1==1 -> 1, !0 -> 1, literals) and astIsBool classifies comparisons/negations as boolean: not modelled, exercised by the CLI tie only",
+        "glibc strtod / printf(%.12g) and libstdc++ istream>>double are correctly rounded (modelled so; validated on every run by the mathlib / tostring-cast correspondences incl. exact midpoints)",
+        "static_cast<bigint>(double) at exactly 2^63 behaves as x86-64 cvttsd2si (INT64_MIN); undefined in C++",
+        "the one-call harness program f(a); reaches Library::getarg like a real call of a global, non-variable function name",
+    ]
     corpus = load_corpus()
+    clicorp = [c for c in corpus if c.get("cli") == "args"]
+    corpus = [c for c in corpus if c.get("cli") != "args"]
+    for c in clicorp:
+        # CLI witnesses: one-function cfg + one call; "expected_reported" = what the property demands for "finding"
+        res2 = core.Result(ctx, res.level)
+        import io, contextlib
+        buf = io.StringIO()
+        with contextlib.redirect_stdout(buf):
+            fails = replay(ctx, res2, c)
+        res.case("corpus-cli|" + c["case"], True, None)
+        if fails:
+            res.violation("%s: %s" % (c["note"], c["case"]), dict(c), concrete=True, key=c.get("key"))
+        elif c.get("key"):
+            res.count("witness-gone:" + c["key"])
     xcorp = [c for c in corpus if c["op"].startswith("X ")]
     corpus = [c for c in corpus if not c["op"].startswith("X ")]
     cops = [c["op"] for c in corpus]
@@ -875,10 +922,15 @@ def cli_args(ctx, res, drv, rng, n):
     pinned = [([("c", 2, 36)], True, False, "", "1==1"), ([("f", 1)], True, False, "", "0==1"), ([("c", 2, 36)], True, True, "u", "!0"),
               ([("c", 0, 1)], True, False, "", "1<2"), ([("c", 2, 36)], False, False, "", "1==1"), ([("f", 1)], True, True, "1", "!1"),
               ([("c", 2, 36)], True, False, "", "a > 1"), ([("c", 2, 36)], True, False, "", "5"), ([("c", 2, 36)], True, False, "", "1"),
-              (None, True, True, "", "0"), ([("f", 1)], False, True, "", "0"), ([("c", 2, 36)], True, True, "1", "buf")]
+              (None, True, True, "", "0"), ([("f", 1)], False, True, "", "0"), ([("c", 2, 36)], True, True, "1", "buf"),
+              # boolean arguments without <not-bool/>: the "0 or 1 (boolean)" branch, constant inside / outside / no constant
+              ([("c", 1, 5)], False, False, "", "1==1"), ([("c", 1, 5)], False, False, "", "0==1"), ([("c", 0, 1)], False, False, "", "1==1"),
+              ([("u", 0)], False, False, "", "!1"), ([("u", 0)], False, False, "", "!0"), ([("f", 1)], False, False, "", "a > 1"),
+              ([("c", 0, 255)], False, False, "", "a == 2"), ([("s", 1)], False, False, "", "1<2"), ([("s", 0), ("c", 2, 36)], False, False, "", "2>3"),
+              ([("c", 1, 5)], True, False, "", "1==1")]
     for k in range(n):
         v = gen_small_expr(rng) if rng.random() < 0.75 else None
-        nb, nn = rng.random() < 0.5, rng.random() < 0.4
+        nb, nn = rng.random() < 0.45, rng.random() < 0.4
         nu = rng.choice(["", "", "u", "1", "2"])
         pin = pinned[k] if k < len(pinned) else None
         if pin:
@@ -918,6 +970,8 @@ def cli_args(ctx, res, drv, rng, n):
                                                   "<not-uninit %s/>" % c["nu"] if c["nu"] else "", "<valid>%s</valid>" % c["text"] if c["v"] else "")
         res.case("cli-args|" + desc, True, dict(tie="cli-args", op=desc, impl=",".join(sorted(g)) or "silent", model=am[k] + " |" + dm[k].split(" 1:")[-1]) if k % 40 == 0 else None)
         res.count("cli-args:" + ("bool" if c["isbool"] else "buf" if c["expr"] == "buf" else "int") + (":known" if c["known"] is not None else ""))
+        if c["isbool"] and not c["nb"] and c["v"] is not None:
+            res.count("cli-args:bool-block:" + ("range-msg" if "range" in g else "silent"))
         if not m or not dmm:
             bad.append("%s: model gave %s / %s" % (desc, am[k], dm[k])); continue
         want = set()
@@ -932,6 +986,18 @@ def cli_args(ctx, res, drv, rng, n):
         p_value = c["known"] is not None and c["v"] is not None and not ref_mem_int(c["v"], c["known"])
         p_bool = c["nb"] and c["isbool"]
         p_null = c["nn"] and c["known"] == 0
+        # the property as written, on the finding id: for a constant argument, invalidFunctionArg (either message) <=> outside
+        if c["known"] is not None and c["v"] is not None:
+            id_rep = bool(g & {"value", "range"})
+            if id_rep != p_value:
+                key = None
+                if (id_rep and c["isbool"] and not c["nb"] and g & {"value", "range"} == {"range"}
+                        and not (ref_mem_int(c["v"], 0) and ref_mem_int(c["v"], 1))):
+                    key = "bool-arg-range-message-constant-inside"
+                res.violation("invalidFunctionArg is %s for the constant argument of %s although the constant %d lies %s the declared ranges; findings on the call: %s" %
+                              ("reported" if id_rep else "not reported", desc, c["known"], "inside" if not p_value else "outside", sorted(g) or "none"),
+                              dict(cli="args", case=desc, cfg_line=cfg[k + 2], call=body[k], reported=sorted(g), restriction="<valid> (finding id)",
+                                   expected_reported=bool(p_value), finding="id:invalidFunctionArg"), concrete=True, key=key)
         for name, p, kind in (("<valid>", p_value, "value"), ("<not-bool/>", p_bool, "invalidFunctionArgBool"), ("<not-null/>", p_null, "nullPointer")):
             if p != (kind in g):
                 res.violation("the %s restriction of an argument is not applied as declared: %s: %s is %s; all findings on the call: %s" %
@@ -990,7 +1056,10 @@ def replay(ctx, res, rp):
             f = line.split("|")
             if len(f) >= 4 and f[2].isdigit():
                 kinds.add(("range" if "0 or 1 (boolean)" in f[3] else "value") if f[0] == "invalidFunctionArg" else f[0])
-        fails = (rp["finding"] in kinds) != rp["expected_reported"]
+        if rp["finding"] == "id:invalidFunctionArg":
+            fails = bool(kinds & {"value", "range"}) != rp["expected_reported"]
+        else:
+            fails = (rp["finding"] in kinds) != rp["expected_reported"]
         print("replay: %s\n  cfg : %s\n  call: %s\n  cppcheck reports: %s\n  %s declared => %s expected to be %s" %
               (rp["case"], rp["cfg_line"].strip(), rp["call"], sorted(kinds) or "nothing", rp["restriction"], rp["finding"], "reported" if rp["expected_reported"] else "absent"))
         if fails:
